@@ -12,7 +12,7 @@ import (
 
 func init() {
 	register(&CheckDef{ID: "C17", Level: "exploration", Engine: "A", Draw: drawC17,
-		Rule: "workload of 1-6 connections (handshakes in progress and stalled, idle HTTP/1.1 keep-alive, open HTTP/2, HTTP/1.1 exchanges held in flight by a back-end that sleeps 1-3 simulated seconds or parks until released, and in 40% of the runs by a header injector that parks every request inside the proxy's handler until the controller releases it) with the server context cancelled as a controller action at a drawn decision index (including before Serve, and a repeated cancel later), followed by 1-2 clients that attempt to connect after the cancellation. Oracle: no request of a connection attempted after the cancel reaches the back-end; Serve has not returned while a back-end-acknowledged HTTP/1.1 exchange is still unanswered; once none is, Serve returns http.ErrServerClosed with the listener closed within 7 simulated seconds (net/http counts a connection that never sent a request as idle once it is 5 s old); idle and fresh HTTP/1.1 connections are closed. Non-trivial: the cancel fired while at least one connection was open or a late client tried to connect. Distinct: distinct controller action-label sequences."})
+		Rule: "workload of 1-6 connections (handshakes in progress and stalled, idle HTTP/1.1 keep-alive, open HTTP/2, HTTP/1.1 connections upgraded to a tunnel that the client keeps open, HTTP/1.1 exchanges held in flight by a back-end that sleeps 1-3 simulated seconds or parks until released, and in 40% of the runs by a header injector that parks every request inside the proxy's handler until the controller releases it) with the server context cancelled as a controller action at a drawn decision index (including before Serve, and a repeated cancel later), followed by 1-2 clients that attempt to connect after the cancellation. Oracle: no request of a connection attempted after the cancel reaches the back-end; Serve has not returned while a back-end-acknowledged HTTP/1.1 exchange is still unanswered; once none is, Serve returns http.ErrServerClosed with the listener closed within 7 simulated seconds (net/http counts a connection that never sent a request as idle once it is 5 s old); idle and fresh HTTP/1.1 connections are closed. Non-trivial: the cancel fired while at least one connection was open or a late client tried to connect. Distinct: distinct controller action-label sequences."})
 }
 
 type c17Aux struct {
@@ -28,7 +28,7 @@ func drawC17(t *rapid.T) *Case {
 	aux := &c17Aux{SecondServe: drawBool(t, "secondserve", 30)}
 	n := rapid.IntRange(0, 5).Draw(t, "nconn")
 	var metas []*ClientMeta
-	kinds := []string{"h1ok", "h1idle_close", "h2ok", "h2idle", "abort_handshake", "stall_wait", "h1slow", "noneok", "h1fresh"}
+	kinds := []string{"h1ok", "h1idle_close", "h2ok", "h2idle", "abort_handshake", "stall_wait", "h1slow", "noneok", "h1fresh", "h1tunnel"}
 	for ci := 0; ci < n; ci++ {
 		kind := kinds[rapid.IntRange(0, len(kinds)-1).Draw(t, "kind")]
 		if v := osGetenv("VERIF_C17_KIND"); v != "" {
@@ -48,6 +48,15 @@ func drawC17(t *rapid.T) *Case {
 			cp, m = DrawConnClient(t, ci, "h1ok", 10)
 			m.Reqs = nil
 			cp.Steps = []Step{{Kind: "connect"}, {Kind: "readeof"}, {Kind: "close"}}
+		case "h1tunnel":
+			// a protocol upgrade through the reverse proxy; the client then stays in the tunnel
+			// until somebody else ends it: a hijacked connection is none of net/http's any more,
+			// Serve must not wait for it
+			cp, m = DrawConnClient(t, ci, "h1upgrade", 10)
+			for len(cp.Steps) > 0 && cp.Steps[len(cp.Steps)-1].Kind != "h1req" && cp.Steps[len(cp.Steps)-1].Kind != "tunnel" {
+				cp.Steps = cp.Steps[:len(cp.Steps)-1]
+			}
+			cp.Steps = append(cp.Steps, Step{Kind: "readeof"}, Step{Kind: "close"})
 		case "h1slow":
 			cp, m = DrawConnClient(t, ci, "h1ok", 10)
 			for _, r := range m.Reqs {
@@ -226,8 +235,8 @@ func oracleC17(w *World, c *Case) {
 			}
 		}
 		for ci, cl := range w.Clients {
-			if cl.conn == nil || cl.NegProto == "h2" {
-				continue
+			if cl.conn == nil || cl.NegProto == "h2" || c.Metas[ci].Kind == "h1tunnel" {
+				continue // (bytes echoed through a tunnel are not an HTTP/1.1 exchange)
 			}
 			w.Net.mu.Lock()
 			now := cl.conn.pair.B.out.total
